@@ -58,12 +58,17 @@ def inputs(wd, tier):
     # (the semantic clause costs 2^n assignments per nested sum: catalogue graphs with <= 6 nodes here, the 7-8 node ones
     #  are covered by the outcome classes of C02 and the separation tables of C04 / C15 / C20)
     exi = [dict(it, qs=[q for q in it["qs"] if q[3]], own=[q for q in it["own"] if q[3]]) for it in exg["items"]
-           if len(it["g"]["n"]) <= 6]
-    exitems = ex.pick(exi, 6 if tier == "quick" else 40, qrng, "EX-")
+           if len(it["g"]["n"]) <= (5 if tier == "quick" else 6)]
+    exitems = ex.pick(exi, 4 if tier == "quick" else 40, qrng, "EX-")
     # every identifiable query of the chain family CH5 whose run applies line 6 to a non-observational distribution with a
     # district of >= 2 variables that a treatment separates in the topological order (IDGenX.tla WideL6; 298 queries)
     chx = ic.gen_x(wd)[0]
     chitems = ic.with_gids(chx["items"], "CH5-")
+    allq = [(i, q) for i, it in enumerate(chitems) for q in it["qs"]]
+    keep = qrng.sample(allq, 40) if tier == "quick" else allq   # these estimands are deep (fractions of sums): a seeded sample in quick
+    chitems = [dict(it, qs=[q for j, q in keep if j == i], orders=1 if tier == "quick" else 2) for i, it in enumerate(chitems)]
+    chitems = [it for it in chitems if it["qs"]]
+    exitems = [dict(it, orders=1) for it in exitems]
     return items + r5items + p5items + deep4 + exitems + chitems, [g3, g4, r5, p5, exg, chx]
 
 
